@@ -54,7 +54,7 @@ def soup(rng, quick):
     sub_t = rng.choice([c for c in reencode.SUB_E if c not in (seg_t, ele_t)])
     terms = (seg_t, ele_t, sub_t)
     alpha = ''.join(c for c in ALPHA if c not in terms)
-    eol = rng.choice(reencode.EOLS) if seg_t not in '\r\n' else ''
+    eol = rng.choice(reencode.EOLS) if seg_t not in '\r\n' else rng.choice(['', '\n' if seg_t == '\r' else '\r'])
     out = [isa_text(terms, rng.choice(['00401', '00501']), rng), eol if eol != 'mixed' else rng.choice(['', '\n', '\r\n', '\r'])]
     feats = set()
     nseg = rng.randint(3, 40)
